@@ -46,4 +46,39 @@ def viewCall {Wire : Type} [DecidableEq Wire] (C : Codec Wire) (cfg : Cfg) (wk :
   let (W', r) := serve C cfg wk W (v.request ident client) script swallow
   (W', capture v r, r)
 
+/-! ### several views on one worker (histories) -/
+
+structure Sys (Wire : Type) where
+  W : World
+  views : Nat → View Wire
+
+/-- ghost: the sessions of view `c` now belong to view `c'` (the token was handed over) -/
+def reown (r : Reg) (c c' : Nat) : Reg :=
+  { r with entries := r.entries.map fun e => if e.owner == c then { e with owner := c' } else e }
+
+inductive SysOp where
+  | call (c : Nat) (ident : Identity) (script : List Action) (swallow : Bool)   -- an RPC through view `c`
+  | handoff (c c' : Nat)   -- `tok = view_c.detach()`, then `with_session_token(token=tok)` as the new view `c'`
+  | setDraining (b : Bool)
+deriving Repr
+
+/-- is `c'` a brand-new view (no token, owns nothing)? -/
+def isNewView {Wire : Type} (s : Sys Wire) (c' : Nat) : Bool :=
+  (s.views c').token.isNone && !(s.W.reg.entries.any fun e => e.owner == c')
+
+def Sys.step {Wire : Type} [DecidableEq Wire] (C : Codec Wire) (cfg : Cfg) (wk : Nat) (s : Sys Wire) : SysOp → Sys Wire
+  | .call c ident script swallow =>
+    let r := viewCall C cfg wk s.W (s.views c) ident c script swallow
+    { W := r.1, views := fun i => if i = c then r.2.1 else s.views i }
+  | .handoff c c' =>
+    if c ≠ c' ∧ isNewView s c' = true then
+      { W := { s.W with reg := reown s.W.reg c c' },
+        views := fun i => if i = c' then { token := (s.views c).detach.2, closedFlag := false }
+                          else if i = c then (s.views c).detach.1 else s.views i }
+    else s
+  | .setDraining b => { s with W := { s.W with reg := { s.W.reg with draining := b } } }
+
+def Sys.run {Wire : Type} [DecidableEq Wire] (C : Codec Wire) (cfg : Cfg) (wk : Nat) (s : Sys Wire) (ops : List SysOp) : Sys Wire :=
+  ops.foldl (fun s op => s.step C cfg wk op) s
+
 end VgiVerif.C27
